@@ -31,6 +31,13 @@ std::string unx(const std::string& cell)  // x'..' -> bytes
 
 struct Dom : CompositeBase
 {
+    static std::vector<std::string> seeds(eng::engine_schema s)
+    {
+        auto v = CompositeBase::seeds(s);
+        // a parent with two children next to another root: the first child is a non-last sibling somewhere else in the tree
+        v.push_back("@1:create_root(|p);create_sub(0|a);create_sub(0|b);create_root(|q)");
+        return v;
+    }
     static std::vector<Op> alphabet(const Model& m, const World& w, int d)
     {
         auto ops = CompositeBase::alphabet(m, w, d);
@@ -49,15 +56,15 @@ struct Dom : CompositeBase
             std::vector<int> lc;
             for (int c = 0; c < (int)m.c.size(); ++c)
                 if (m.c[c].live) lc.push_back(c);
-            if ((int)lc.size() < max_crates() && (int)m.c.size() < max_crates() + 2)
+            // proper anchors (siblings) only while the crate limit allows another crate; anchors from elsewhere always: on a correct tree
+            // they are refused and the state space does not grow
+            const bool room = (int)lc.size() < max_crates() && (int)m.c.size() < max_crates() + 2;
+            const std::string nm = "a" + std::to_string(m.names);
+            for (int a : lc)
             {
-                const std::string nm = "a" + std::to_string(m.names);
-                for (int a : lc)
-                {
-                    ops.push_back(Op{"create_root_after", {a}, {nm}});
-                    for (int p : lc)
-                        if (p != a) ops.push_back(Op{"create_sub_after", {p, a}, {nm}});
-                }
+                if (m.c[a].parent >= 0 || room) ops.push_back(Op{"create_root_after", {a}, {nm}});
+                for (int p : lc)
+                    if (p != a && (m.c[a].parent != p || room)) ops.push_back(Op{"create_sub_after", {p, a}, {nm}});
             }
         }
         return ops;
